@@ -137,6 +137,12 @@ def check_case(case):
             if got is None:
                 continue
             miss = missing(required, got)
+            if miss and any(R.two_readings(f, rv[f["name"]]) for f in spec["fields"]):
+                # literal reading of C22's statement for MultiInputObj without '...': joined
+                alt = R.value_args(spec, rv, multi_joined=True) + required[-len(app):] if app \
+                    else R.value_args(spec, rv, multi_joined=True)
+                if not missing(alt, got):
+                    miss = []
             if not miss:
                 continue
             s = R.explain(spec, rv, app, got)
@@ -213,7 +219,7 @@ def char_labels(strs):
 
 
 def run(sh):
-    for alpha, (q, t) in ((G.HOSTILE, (1000, 25000)), (G.SAFE, (1000, 25000))):
+    for alpha, (q, t) in ((G.HOSTILE, (800, 25000)), (G.SAFE, (800, 25000))):
         def body(case):
             strs = strings_of(case)
             cl = char_labels(strs)
